@@ -87,7 +87,7 @@ Definition monitor (c : case) : list N :=
       (if option_eqb N.eqb (fst s) (fst (obs_of m)) then [] else [1]) ++
       (if list_eqb outc_eqb (snd s) (snd (obs_of m)) then [] else [2]) ++
       (if shape_eqb (shape (obs_of m)) (shape (obs_of v)) then []
-       else if msg_has_upper_ace m || msg_has_upper_ace v || nodes_upper_ace PFUEL (c_nodes c) then [105] else [4]))
+       else [4]))
       (c_msgs c).
 
 Definition dedup_N (l : list N) : list N :=
